@@ -3,7 +3,7 @@ from __future__ import annotations
 
 import numpy as np
 
-from vf import envs, episodes, histprop
+from vf import bulk, envs, episodes, histprop
 
 PROPERTY = "C03"
 TECHNIQUE = ("Hypothesis-generated keys x episode plans (incl. steps issued after LAST); protocol monitor "
@@ -106,7 +106,71 @@ def work_items(tier, flt):
         for e in es:
             items.append({"env": env, "entry": e, "kind": "coincide", "n": max(2, int((8 if tier == "quick" else 40) * scale)),
                           "cost": 3})
+    items.extend(bulk.sweep_items(tier, flt))
     return items
+
+
+def _sweep_flag(b):
+    """Device-side version of Mon for the bulk sweeps (vf/bulk.py); flagged episodes are replayed under Mon."""
+    import jax.numpy as jnp
+
+    tl = int(b.env.time_limit) if b.name == "LevelBasedForaging" else None
+
+    def flag(s, ts, is_reset):
+        d = jnp.asarray(ts.discount).astype(jnp.float32).reshape(-1)
+        r = jnp.asarray(ts.reward).reshape(-1)
+        if is_reset:
+            return (ts.step_type != episodes.FIRST) | jnp.any(r != 0) | jnp.any(d != 1), jnp.asarray(False)
+        last = ts.step_type == episodes.LAST
+        bad = (ts.step_type != episodes.MID) & ~last
+        bad = bad | jnp.any((d < 0) | (d > 1) | jnp.isnan(d))
+        bad = bad | ((ts.step_type == episodes.MID) & jnp.all(d == 0))
+        nonzero_last = last & ~jnp.all(d == 0)
+        if tl is not None:
+            nonzero_last = nonzero_last & ~((s.step_count >= tl) & ~jnp.all(s.food_items.eaten))
+        return bad | nonzero_last, last
+
+    return flag
+
+
+def run_sweep(item, seed):
+    from hypothesis import strategies as st
+
+    from vf import hyp
+    from vf.runner import Ctx
+
+    ctx = Ctx(PROPERTY, item)
+    with ctx.guard(item["env"], {"env": item["env"], "entry": item["entry"], "stage": "construct"}):
+        b = envs.bundle(item["env"], item["entry"])
+        if not hasattr(b, "_c03_flag"):
+            b._c03_flag = _sweep_flag(b)
+
+        def one(key, salt):
+            with ctx.guard(b.name, {"env": b.name, "entry": b.entry, "overrides": {}, "key": list(key), "actions": [],
+                                    "stage": "sweep", "salt": salt}):
+                first, n, aux, kws, acts = bulk.sweep(b, key, salt, item["episodes"], item["steps"], b._c03_flag,
+                                                      item.get("policy", "legal_hash"))
+            ctx.evals(int(n.sum()))
+            ctx.count("sweep_episodes", len(n))
+            ctx.count("sweep_timesteps", int(n.sum()))
+            ctx.count("sweep_episodes_with_last", int(aux.sum()))
+            ctx.nontrivial(b.name, b.entry, "sweep", int(n.max()), int(aux.sum()))
+            for e in np.flatnonzero(first >= 0)[:3]:
+                rec = episodes.Recorder(ctx, b, [int(kws[e][0]), int(kws[e][1])])
+                before = len(ctx.failures)
+                with ctx.guard(b.name, rec.case(), size=10**6):
+                    episodes.run_actions(b, rec, [np.asarray(a).tolist() for a in acts[e][: int(first[e])]],
+                                         Mon(b, ctx, None))
+                ctx.count("sweep_flagged")
+                if len(ctx.failures) == before:
+                    ctx.count("sweep_unconfirmed")
+            if len(ctx.samples) < 2:
+                ctx.sample({"env": b.name, "entry": b.entry, "sweep_base_key": list(key), "salt": salt,
+                            "episodes": int(len(n)), "timesteps": int(n.sum()), "longest": int(n.max()),
+                            "episodes_with_last": int(aux.sum())})
+
+        hyp.drive({"key": episodes.keys(), "salt": st.integers(0, 2**20)}, one, seed, item["batches"])
+    return ctx.result()
 
 
 def run_coincide(item, seed):
@@ -160,6 +224,8 @@ def run_coincide(item, seed):
 def run_item(item, seed, tier):
     if item.get("kind") == "coincide":
         return run_coincide(item, seed)
+    if item.get("kind") == "sweep":
+        return run_sweep(item, seed)
     return histprop.run_item(PROPERTY, item, seed, Mon, max_len=70, after_last=4, per_episode=_per_episode)
 
 
